@@ -326,7 +326,7 @@ def _run_partition(ctx, case, prog, cm, built, objs, parts, nest, kinds):
             if cls == "same":
                 ctx.held(fingerprint=fp, nontrivial=any(len(g) > 1 for g in parts) and len(ref.transcript.splitlines()) >= 20,
                          sample={"program": prog.desc, "code_model": cm, "groups": parts, "nested": nest, "kind": kind, "final_linker": final}
-                         if case.i < 3 and final == "wild" else None)
+                         if str(case.i) in ("0", "1", "2") and final == "wild" else None)
                 continue
             if cls in ("link-timeout", "run-timeout"):
                 ctx.inconclusive("watchdog fired")
